@@ -52,8 +52,8 @@ structure StepOut where
   model : String
   oracle : List String := []
   nontrivial : Bool := false
-  /-- what "distinct" is counted on (default: the op line itself); models whose op lines repeat
-  (e.g. `poll 0`) supply a key that identifies the op *in its history* -/
+  /-- what identifies the situation for the `distinct` count (default: the op line itself);
+  set it when the same op text occurs in many different states -/
   key : Option String := none
 
 /-- Generic replay loop for a model with state `σ`. -/
@@ -70,7 +70,7 @@ def replay {σ : Type} (init : σ) (step : σ → String → String → σ × St
     t := { t with ops := t.ops + 1 }
     if out.nontrivial then
       t := { t with nontrivial := t.nontrivial + 1 }
-      let k := out.key.getD op
+      let k := out.key.getD (op ++ " => " ++ im)
       if !seen.contains k then
         seen := seen.insert k
         t := { t with distinct := t.distinct + 1 }
